@@ -10,6 +10,7 @@ import (
 	"fmt"
 	"runtime"
 	"sort"
+	"strings"
 
 	"github.com/go-netty/go-netty/zz_verif/clib"
 	"github.com/go-netty/go-netty/zz_verif/explore"
@@ -135,11 +136,18 @@ func each(c *explore.EnumCtx, cc c8case, idx *int) {
 
 // truncations: valid streams of 2 frames cut at every byte position.
 func truncations(c *explore.EnumCtx, cfg clib.FrameCfg, lens []int, idx *int) {
+	var bodies [][]byte
+	for k, n := range lens {
+		bodies = append(bodies, clib.Body(k, n))
+	}
+	truncBodies(c, cfg, bodies, idx)
+}
+
+func truncBodies(c *explore.EnumCtx, cfg clib.FrameCfg, bodies [][]byte, idx *int) {
 	var stream []byte
 	var ends []int
 	var wants [][]byte
-	for k, n := range lens {
-		b := clib.Body(k, n)
+	for _, b := range bodies {
 		w, ok := cfg.RefFrame(b)
 		if !ok {
 			return
@@ -159,7 +167,7 @@ func lfConfigs() []clib.FrameCfg {
 		for _, little := range []bool{false, true} {
 			for _, off := range []int{0, 1} {
 				for _, adj := range []int{-2, 0, 2, 4, -w} {
-					for _, strip := range []int{0, off + w} {
+					for _, strip := range []int{0, off + w, off + w + 2} { // (the last one strips into the body)
 						cfgs = append(cfgs, clib.FrameCfg{Kind: "lengthfield", W: w, Little: little, Off: off, Adj: adj, Strip: strip, Max: 32})
 					}
 				}
@@ -217,7 +225,7 @@ func scenarios(thorough bool) []*explore.Scenario {
 					if !c.Mine() {
 						continue
 					}
-					lensList := [][]int{{0, 3}, {1, 0}, {5, 5}, {9, 1}}
+					lensList := [][]int{{0, 3}, {1, 0}, {5, 5}, {9, 1}, {3, 4}}
 					if cfg.Kind == "fixed" {
 						lensList = [][]int{{cfg.N, cfg.N}, {cfg.N}}
 					}
@@ -228,6 +236,16 @@ func scenarios(thorough bool) []*explore.Scenario {
 					if cfg.Kind == "lengthfield" {
 						room := cfg.Max - cfg.Off - cfg.W
 						lensList = append(lensList, []int{room, room - 1})
+					}
+					if cfg.Kind == "delimiter" && len(cfg.Delim) > 1 {
+						// bodies made of the delimiter's own bytes (partial delimiters at the start, middle and end of a frame)
+						d := cfg.Delim
+						last, first := d[len(d)-1:], d[:1]
+						for _, b := range []string{last, last + "w", first + first, last + last + "w" + first, "w" + last + first, d[1:] + d[:len(d)-1]} {
+							if !strings.Contains(b, d) {
+								truncBodies(c, cfg, [][]byte{[]byte(b), []byte("x" + last)}, &idx)
+							}
+						}
 					}
 					for _, lens := range lensList {
 						ok := true
